@@ -76,9 +76,13 @@ def _r(x, nd=4):
 def lineage_specs(draw, allow_zero_propensity=True, max_pts=48, with_death=True, rich=True):
     """A lineage model: A <-> B (conserved per cell between divisions), optional G (inflow/decay, capped), growth,
     division with a LineageVolumeSplitter, optional death."""
-    dt = draw(st.sampled_from([0.0625, 0.125, 0.25, 0.5]))
+    dt = draw(st.sampled_from([0.0625, 0.125, 0.25, 0.5, 0.1, 0.05, 0.3]))
     npts = draw(st.integers(10, max_pts))
-    grid = [i * dt for i in range(npts)]
+    if draw(st.booleans()):
+        grid = [i * dt for i in range(npts)]
+    else:
+        import numpy as _np
+        grid = [float(x) for x in _np.linspace(0.0, dt * (npts - 1), npts)]      # the other common way to write the grid
     H = grid[-1]
     species = ["A", "B"]
     has_G = draw(st.booleans())
